@@ -2,6 +2,15 @@
 From Verif Require Import model.Base model.Searcher.
 From Coq Require Import Permutation.
 
+Lemma NoDup_app_disjoint {A} (l1 l2 : list A) :
+  NoDup l1 -> NoDup l2 -> (forall x, In x l1 -> ~ In x l2) -> NoDup (l1 ++ l2).
+Proof.
+  induction l1 as [|y l1 IH]; simpl; intros H1 H2 Hd; [assumption|].
+  inversion H1 as [|? ? Hy Hl]; subst. constructor.
+  - intro Hin. apply in_app_or in Hin as [Hin|Hin]; [contradiction|]. apply (Hd y); auto.
+  - apply IH; auto.
+Qed.
+
 Section Proofs.
 Variable C : Type.
 Variable M : Type.
@@ -1208,6 +1217,124 @@ Lemma mb_clone_fresh (s : mb_state C M) : mb_rs _ _ s = None -> mb_clone C M s (
 Proof. intro H. destruct s; simpl in *; subst; reflexivity. Qed.
 
 
+(* ---------------- C06: get_batch_configs (FIFO GP searcher) ------------------------------ *)
+Ltac batch_triv :=
+  exists [], []; simpl; rewrite ?app_nil_r;
+  split; [reflexivity|]; split; [reflexivity|]; split; [constructor|];
+  split; [intros c0 []|]; split; [intro m0; tauto | reflexivity].
+
+Lemma mb_batch_loop_spec fuel : forall (s : mb_state C M) e ds acc s' e' acc' pr ds',
+  mb_batch_loop C M meqb ms fuel s e ds acc = Ok (s', e', acc', pr, ds') ->
+  exists I R, acc' = acc ++ I ++ R /\ I = firstn (length I) (mb_p2e _ _ s) /\
+    NoDup (map ms R) /\
+    (forall c, In c R -> ~ In (ms c) e /\ ~ In (ms c) (map ms I)) /\
+    (forall m, In m e' <-> In m e \/ In m (map ms (I ++ R))) /\
+    mb_size _ _ s' = mb_size _ _ s.
+Proof.
+  induction fuel as [|f IH]; intros s e ds acc s' e' acc' pr ds' H; simpl in H.
+  - injection H as <- <- <- _ _. batch_triv.
+  - unfold mb_not_modelbased in H. destruct (mb_p2e C M s) as [|c rest] eqn:Ep.
+    + destruct (mb_pick_random C M s e).
+      * destruct (mb_random_loop C M meqb ms (mb_outer C M s)
+                    (match mb_rs C M s with Some r => r | None => mb_fresh_rs C M s end) e ds)
+          as [[[r' oc] ds1]|x] eqn:El; [|discriminate].
+        destruct oc as [c|].
+        -- apply mb_random_loop_not_excluded in El.
+           destruct (IH _ _ _ _ _ _ _ _ _ H) as (I1 & R1 & Hacc & HI & Hnd & Hmem & He & Hsz).
+           simpl in HI. rewrite firstn_nil in HI. subst I1. simpl in *.
+           exists [], (c :: R1). simpl.
+           split; [rewrite Hacc, <- app_assoc; reflexivity|]. split; [reflexivity|].
+           split.
+           { constructor; [|assumption]. intro Hin. apply in_map_iff in Hin as (c' & Hm & Hc').
+             destruct (Hmem c' Hc') as [Hn _]. apply Hn. apply excl_add_In. left. assumption. }
+           split.
+           { intros c0 [<-|Hc']; [split; [assumption | intros []]|].
+             destruct (Hmem c0 Hc') as [Hn _]. split; [|intros []].
+             intro Hin. apply Hn. apply excl_add_In. right. assumption. }
+           split; [|exact Hsz].
+           intro m. rewrite He, excl_add_In. simpl. intuition (try subst; auto).
+        -- injection H as <- <- <- _ _. batch_triv.
+      * injection H as <- <- <- _ _. batch_triv.
+    + destruct (IH _ _ _ _ _ _ _ _ _ H) as (I1 & R1 & Hacc & HI & Hnd & Hmem & He & Hsz). simpl in HI, Hsz.
+      exists (c :: I1), R1.
+      split; [rewrite Hacc, <- app_assoc; reflexivity|].
+      split; [simpl; rewrite <- HI; reflexivity|]. split; [assumption|].
+      split.
+      { intros c0 Hc0. destruct (Hmem c0 Hc0) as [Hn Hn2]. split.
+        - intro Hin. apply Hn. apply excl_add_In. right. assumption.
+        - simpl. intros [Hm|Hm]; [|contradiction]. apply Hn. apply excl_add_In. left. symmetry. assumption. }
+      split; [|exact Hsz].
+      intro m. rewrite He, excl_add_In. simpl. intuition (try subst; auto).
+Qed.
+
+Lemma mb_get_batch_spec (s s' : mb_state C M) n ds oracles batch :
+  mb_get_batch C M meqb ms s n ds oracles = Ok (s', batch) ->
+  exists I R, batch = I ++ R /\ I = firstn (length I) (mb_p2e _ _ s) /\
+    NoDup (map ms R) /\
+    forall c, In c R -> ~ In (ms c) (tj_excl C M meqb ms (mb_tj _ _ s) (mb_allow_dup _ _ s)) /\ ~ In (ms c) (map ms I).
+Proof.
+  unfold mb_get_batch. intro H.
+  destruct (mb_batch_loop C M meqb ms n s (tj_excl C M meqb ms (mb_tj C M s) (mb_allow_dup C M s)) ds [])
+    as [[[[[s1 e1] acc] pr] ds1]|x] eqn:El; [|discriminate].
+  destruct (mb_batch_loop_spec _ _ _ _ _ _ _ _ _ _ El) as (I & R & Hacc & HI & Hnd & Hmem & He & Hsz).
+  simpl in Hacc. destruct pr.
+  - injection H as _ <-. exists I, R. auto.
+  - injection H as _ <-.
+    destruct (bo_batch_fresh (mb_size C M s) (n - length acc) e1 oracles) as [Bnd Bex].
+    exists I, (R ++ bo_batch C M meqb ms (mb_size C M s) (n - length acc) e1 oracles).
+    split; [rewrite Hacc, app_assoc; reflexivity|]. split; [assumption|]. split.
+    + rewrite map_app. apply NoDup_app_disjoint; auto.
+      intros m Hm Hb. apply in_map_iff in Hb as (c & <- & Hc). apply (Bex c Hc). apply He. right.
+      rewrite map_app. apply in_or_app. right. assumption.
+    + intros c Hc. apply in_app_or in Hc as [Hc|Hc]; [auto|].
+      pose proof (Bex c Hc) as Hn. split; intro Hin; apply Hn; apply He.
+      * left. assumption.
+      * right. rewrite map_app. apply in_or_app. left. assumption.
+Qed.
+
+(* ---------------- C06: initial points first (GP searcher) -------------------------------- *)
+Lemma mb_initial_first es : forall (s : mb_state C M),
+  mb_new_ids s es ->
+  firstn (length (mb_p2e _ _ s)) (snd (mb_run C M meqb ms s es)) =
+  map ok_some (firstn (length (snd (mb_run C M meqb ms s es))) (mb_p2e _ _ s)).
+Proof.
+  induction es as [|e r IH]; intros s Hids; simpl.
+  - rewrite firstn_nil. reflexivity.
+  - destruct Hids as [Hid Hrest].
+    destruct e as [t ds cands opt|t c|t|t].
+    + simpl in Hrest |- *. destruct (mb_p2e C M s) as [|c rest] eqn:Ep; [simpl; rewrite firstn_nil; reflexivity|].
+      assert (Eg : mb_get_config C M meqb ms s ds cands opt =
+                   Ok (mb_with C M s rest (mb_tj C M s)
+                         (Some (match mb_rs C M s with Some r0 => r0 | None => mb_fresh_rs C M s end)), Some c, ds)).
+      { unfold mb_get_config. rewrite Ep. reflexivity. }
+      rewrite Eg in Hrest |- *. destruct Hid as (Hl & Hp & Ho).
+      unfold mb_register_pending in Hrest |- *. simpl in Hrest |- *.
+      destruct (mem_Z t (tj_pending C (mb_tj C M s))) eqn:Emp; [apply mem_Z_In in Emp; contradiction|].
+      destruct (mem_Z t (tj_obs C (mb_tj C M s))) eqn:Emo; [apply mem_Z_In in Emo; contradiction|].
+      simpl in Hrest |- *.
+      match type of Hrest with mb_new_ids ?s1 _ => specialize (IH s1 Hrest); destruct (mb_run C M meqb ms s1 r) as [s2 o2] end.
+      simpl in IH |- *. rewrite IH. reflexivity.
+    + simpl in Hrest |- *. specialize (IH _ Hrest). simpl in IH.
+      destruct (mb_run C M meqb ms (mb_update C M s t c) r) as [s2 o2]. simpl in *. exact IH.
+    + simpl in Hrest |- *. specialize (IH _ Hrest).
+      assert (Ep : mb_p2e _ _ (mb_update_nonfinite C M s t) = mb_p2e _ _ s).
+      { unfold mb_update_nonfinite. destruct (lookupZ t (tj_cfg C (mb_tj C M s))); reflexivity. }
+      rewrite Ep in IH. destruct (mb_run C M meqb ms (mb_update_nonfinite C M s t) r) as [s2 o2]. simpl in *. exact IH.
+    + simpl in Hrest |- *. specialize (IH _ Hrest). simpl in IH.
+      destruct (mb_run C M meqb ms (mb_evaluation_failed C M s t) r) as [s2 o2]. simpl in *. exact IH.
+Qed.
+
+(* ---------------- C06 / C16: the grid exactly once across a restore ----------------------- *)
+Lemma gs_run_app es1 : forall (s : gs_state) es2,
+  snd (gs_run s (es1 ++ es2)) = snd (gs_run s es1) ++ snd (gs_run (fst (gs_run s es1)) es2).
+Proof.
+  induction es1 as [|e r IH]; intros s es2; simpl.
+  - destruct (gs_run s es2); reflexivity.
+  - destruct (gs_step C M meqb ms s e) as [s1 o1]. specialize (IH s1 es2).
+    destruct (gs_run s1 (r ++ es2)) as [sa oa]. destruct (gs_run s1 r) as [sb ob]. simpl in *.
+    rewrite IH, app_assoc. reflexivity.
+Qed.
+
 (* ---------------- C16: GP clone, allow_duplicates = True: full bisimulation -------------
    With allow_duplicates the internal random searcher never changes (it excludes nothing and
    registers nothing), so dropping it in clone_from_state is unobservable. *)
@@ -1435,14 +1562,6 @@ Proof.
       apply in_map. apply IH. assumption.
 Qed.
 
-Lemma NoDup_app_disjoint {A} (l1 l2 : list A) :
-  NoDup l1 -> NoDup l2 -> (forall x, In x l1 -> ~ In x l2) -> NoDup (l1 ++ l2).
-Proof.
-  induction l1 as [|y l1 IH]; simpl; intros H1 H2 Hd; [assumption|].
-  inversion H1 as [|? ? Hy Hl]; subst. constructor.
-  - intro Hin. apply in_app_or in Hin as [Hin|Hin]; [contradiction|]. apply (Hd y); auto.
-  - apply IH; auto.
-Qed.
 
 Lemma cart_NoDup {V} (ls : list (list V)) : Forall (@NoDup V) ls -> NoDup (cart ls).
 Proof.
